@@ -7,6 +7,8 @@ pub mod c03;
 pub mod c04;
 pub mod c05;
 pub mod c06;
+pub mod c07;
+pub mod c08;
 pub mod c09;
 pub mod c10;
 pub mod c11;
@@ -28,6 +30,8 @@ pub static REGISTRY: &[Entry] = &[
     Entry { id: "C04", run: c04::run_check, replay: c04::replay },
     Entry { id: "C05", run: c05::run_check, replay: c05::replay },
     Entry { id: "C06", run: c06::run_check, replay: c06::replay },
+    Entry { id: "C07", run: c07::run_check, replay: c07::replay },
+    Entry { id: "C08", run: c08::run_check, replay: c08::replay },
     Entry { id: "C09", run: c09::run_check, replay: c09::replay },
     Entry { id: "C10", run: c10::run_check, replay: c10::replay },
     Entry { id: "C11", run: c11::run_check, replay: c11::replay },
